@@ -137,4 +137,23 @@ theorem hasFid_exists {s : State} {req : Json} {c : Nat} (h : unfetchOkB s req c
     exact ⟨p, params, fid, hp, hid, p, hp, rfl, g, hg, hi⟩
   · cases h
 
+/-- peer 1 sends the batch [fetch 1, unfetch 1, fetch 1] -/
+def opBatch : Op := .message 1 (some (.arr [.obj fetch1, .obj unfetch1, .obj fetch1])) {}
+
+/-- some fetch of connection `c` in `s'` whose notifications in `obs` do NOT replay -/
+def replayFailsB (s' : State) (c : Nat) (obs : List Obs) : Bool :=
+  s'.peers.any (fun p => p.conn == c && p.fetches.any (fun f => (replay (notifsFor c f.fid obs)).isNone))
+
+theorem coarse_exists {s s' : State} {c : Nat} {obs : List Obs} (h1 : noFetchesB s c = true)
+    (h2 : replayFailsB s' c obs = true) :
+    ∃ f, ¬ HasFetch s c f ∧ HasFetch s' c f ∧ replay (notifsFor c f.fid obs) = none := by
+  unfold replayFailsB at h2
+  obtain ⟨p, hp, h⟩ := List.any_eq_true.1 h2
+  simp only [Bool.and_eq_true, beq_iff_eq] at h
+  obtain ⟨f, hf, hn⟩ := List.any_eq_true.1 h.2
+  refine ⟨f, noFetches h1 f, ⟨p, hp, h.1, hf⟩, ?_⟩
+  cases hr : replay (notifsFor c f.fid obs) with
+  | none => rfl
+  | some r => simp [hr] at hn
+
 end Cjet.Daemon.C01.Ex
